@@ -118,8 +118,11 @@ def cases(tier, rng):
                             for gz in (False, True):
                                 for lazy in ((True, False) if (big or rng.random() < 0.5) else (rng.choice([True, False]),)):
                                     nl = rng.random() < 0.8
-                                    yield {"op": "read", "fmt": fmt, "header": header, "ents": bad, "i": i, "kind": kind, "k": k, "gz": gz,
-                                           "lazy": lazy, "nl": nl}
+                                    case = {"op": "read", "fmt": fmt, "header": header, "ents": bad, "i": i, "kind": kind, "k": k, "gz": gz,
+                                            "lazy": lazy, "nl": nl}
+                                    if lazy and rng.random() < 0.3:
+                                        case["defer"] = True
+                                    yield case
                         if big or rng.random() < 0.3:      # f.read(): the whole file at once (a separate reader method)
                             yield {"op": "read", "fmt": fmt, "header": header, "ents": bad, "i": i, "kind": kind, "k": L + 10, "gz": rng.random() < 0.5,
                                    "lazy": rng.random() < 0.5, "nl": rng.random() < 0.8, "via": "whole"}
@@ -226,6 +229,13 @@ def impl(c):
         with bnp.open(path, buffer_type=bt, lazy=c["lazy"]) as f:
             if via == "whole":
                 return {"table": len(c01.table_rows(f.read()))}
+            if c.get("defer"):
+                # lazy chunks are only looked at after the whole file was read, last chunk first: each must still
+                # report with its own offset (model: readLazy / accessLazy, theorem lazy_access_any_time)
+                chunks = list(f.read_chunks(min_chunk_size=c["k"]))
+                for chunk in reversed(chunks):
+                    rows += len(c01.table_rows(chunk))
+                return {"table": rows}
             for chunk in f.read_chunks(min_chunk_size=c["k"]):
                 rows += len(c01.table_rows(chunk))
         return {"table": rows}
@@ -395,3 +405,17 @@ def finding_key(c, got, exp):
             return "ncols:mixed-in-one-chunk" if _chunk_mixed(c) else "ncols:chunk-local-uniform"
         return f"{c['kind']}:yields-table"
     return f"{c['kind']}:wrong-line"
+
+
+def tags(c, got):
+    """input distribution recorded in the evidence"""
+    t = ["op:" + c["op"]]
+    if c["op"] == "read":
+        kind = c["kind"].split(":")[0] + (":col" + c["kind"].split(":")[1] if c["kind"].startswith("tok:") else "")
+        L = sum(len(e) for e in c["ents"])
+        t += ["fmt:" + c["fmt"], "violation:" + kind, "via:" + c.get("via", "read_chunks"), "gz" if c["gz"] else "plain", "lazy" if c["lazy"] else "eager",
+              "bad-record:" + ("first" if c["i"] == 0 else "last" if c["i"] == len(c["ents"]) - 1 else "middle"),
+              "k:" + ("1" if c["k"] == 1 else "<file" if c["k"] < L else ">=file")]
+    if isinstance(got, dict):
+        t.append("outcome:" + ("FormatException" if got.get("err") == "format" else str(got.get("err")) if "err" in got else "table"))
+    return t
